@@ -65,7 +65,7 @@ Judge(r) ==
                            ELSE IF ~Genuine(G, M.states[c.state + 1], ItemOf(c.items[1]), ItemOf(c.items[2]))
                            THEN [ok |-> FALSE, why |-> "C11: reported items are not two items of the reported state demanding different actions on one lookahead"]
                            ELSE [ok |-> TRUE, why |-> ""]]
-      all == <<verdictCheck>> \o conflictChecks \o machineChecks \o (IF cf /\ r.verdict = "ok" THEN tableChecks ELSE <<>>)
+      all == <<verdictCheck>> \o conflictChecks \o machineChecks \o (IF r.verdict = "ok" THEN tableChecks ELSE <<>>)
       res == FirstBad(all)
   IN [id |-> r.id, ok |-> res.ok, why |-> res.why, cf |-> cf,
       nlalr |-> Cardinality(LS), ncanon |-> Cardinality(CC),
